@@ -663,6 +663,30 @@ def r4_progress(a, tier):
     if bad or silent:
         rep.fail(fn.qualname, 'no-progress-check', 'an iteration of repeat() can succeed without the position having been '
                  'compared with the position at its start: a body that matches the empty string loops forever', fn.loc)
+    # the saved position is the one at the START of the iteration: bound inside the loop, before the separator and the
+    # element are evaluated (the documented expansion s%{e} = [e {s e}] counts the separator as progress)
+    loops = [n for n in walk_no_defs(fn.node) if isinstance(n, (ast.While, ast.For))]
+    evals = [n for lp in loops for n in ast.walk(lp) if isinstance(n, ast.Call) and (
+        any(isinstance(x, ast.Name) and x.id in fn.params[1:3] for x in n.args) or (isinstance(n.func, ast.Name) and n.func.id in fn.params[1:3]))]
+    cmp_vars = set()
+    for n in walk_no_defs(fn.node):
+        if isinstance(n, ast.Compare) and len(n.ops) == 1:
+            l, r = norm(n.left), norm(n.comparators[0])
+            if 'self.pos' in (l, r):
+                cmp_vars |= ({l, r} - {'self.pos'}) & saved
+    for v in sorted(cmp_vars):
+        binds = [n for lp in loops for n in ast.walk(lp) if isinstance(n, ast.Assign) and isinstance(n.targets[0], ast.Name)
+                 and n.targets[0].id == v]
+        first_eval = min(((e.lineno, e.col_offset) for e in evals), default=None)
+        ok = bool(binds) and first_eval is not None and all((b.lineno, b.col_offset) < first_eval for b in binds)
+        rep.add({'fn': fn.qualname, 'start_position_var': v, 'bound_in_loop_before_separator_and_element': ok})
+        if not ok:
+            rep.fail(fn.qualname, f'late-marker:{v}', f'the position `{v}` that the no-progress test of repeat() compares with is not taken at '
+                     f'the start of the iteration (inside the loop, before the separator and the element are evaluated): an iteration '
+                     f'whose separator consumed input but whose element matched empty is rejected, so `s%{{e}}` differs from [e {{s e}}]',
+                     fn.loc)
+    if not cmp_vars:
+        rep.fail(fn.qualname, 'no-marker', 'repeat() compares the position with no saved start position', fn.loc)
     # no-progress branch raises
     raises_on_equal = False
     for n in walk_no_defs(fn.node):
